@@ -47,7 +47,8 @@ def check_pitch_trim(chk, MX):
     try:
         ret = sc.pitch_trim(set_trim_state=False, **kw)["a"]
     except Exception as e:
-        if type(e).__name__ == "MaxIterationError":
+        if type(e).__name__ in ("MaxIterationError", "SolverNotConvergedError"):
+            chk.count("not-trimmable=" + type(e).__name__)        # a raised error is not a returned trim: nothing to check
             return None, None
         return "pitch_trim:raises:" + type(e).__name__, dict(error=repr(e), scene=sd, aircraft=ac, state=st, controls=cs, kwargs=kw)
     st2 = dict(st, alpha=float(ret["alpha"]))
@@ -75,7 +76,8 @@ def check_trim_orientation(chk, MX):
     try:
         rs, rc = sc.pitch_trim_using_orientation(set_trim_state=False, **kw)
     except Exception as e:
-        if type(e).__name__ == "MaxIterationError":
+        if type(e).__name__ in ("MaxIterationError", "SolverNotConvergedError"):
+            chk.count("not-trimmable=" + type(e).__name__)        # a raised error is not a returned trim: nothing to check
             return None, None
         return "trim_orient:raises:" + type(e).__name__, dict(error=repr(e), scene=sd, aircraft=ac, state=st, controls=cs, kwargs=kw)
     st2 = {"position": list(map(float, rs["position"])), "velocity": list(map(float, rs["velocity"])),
@@ -105,7 +107,8 @@ def check_target_CL(chk, MX):
     try:
         alpha = sc.target_CL(CL=CLt, control_state=copy.deepcopy(given), set_state=False, relaxation=rng.choice([1.0, 0.8]))
     except Exception as e:
-        if type(e).__name__ == "MaxIterationError":
+        if type(e).__name__ in ("MaxIterationError", "SolverNotConvergedError"):
+            chk.count("not-trimmable=" + type(e).__name__)        # a raised error is not a returned trim: nothing to check
             return None, None
         return "target_CL:raises:" + type(e).__name__, dict(error=repr(e), scene=sd, aircraft=ac, state=st)
     _, tot = totals_at(MX, sd, ac, dict(st, alpha=float(alpha)), given)
@@ -171,6 +174,8 @@ def check_errors(chk, MX):
         except MaxIterationError:
             pass
         except Exception as e:
+            if type(e).__name__ == "SolverNotConvergedError":      # the inner solve failed first: still no silent return
+                continue
             return "%s:iteration-cap-wrong-exception" % name, dict(error=repr(e))
     # a trimmed aircraft trims again (no iterations needed)
     sc = gen.build_scene(MX, sd, [("a", ac, st, cs)])
@@ -182,6 +187,8 @@ def check_errors(chk, MX):
     except MaxIterationError:
         pass
     except Exception as e:
+        if type(e).__name__ == "SolverNotConvergedError":
+            return None, dict(kind="errors")
         return "pitch_trim:retrim-raises:" + type(e).__name__, dict(error=repr(e), scene=sd, aircraft=ac, state=st, controls=cs)
     return None, dict(kind="errors")
 
